@@ -809,3 +809,12 @@ func digestOf(res *core.Result) string {
 	}{res.Evaluations, res.Keys, res.Violations, res.Extended})
 	return fmt.Sprintf("%x", sha256sum(b))
 }
+
+func containsStr(ss []string, s string) bool {
+	for _, x := range ss {
+		if x == s {
+			return true
+		}
+	}
+	return false
+}
